@@ -7,7 +7,7 @@
 CONSTANTS
   Mode = "node"
   Procs = {"n1", "n2"}
-  HasNX = TRUE
+  HasNX = "yes"
   NCands = 1
   MaxAttempts = 1
   MaxCalls = 1
@@ -18,6 +18,8 @@ CONSTANTS
   TTLTicks = 3
   MaxTicks = 4
   Faults = {}
+  MaxRenewFails = 0
+  WithLapse = FALSE
   Emit = FALSE
 INIT Init
 NEXT Next
